@@ -246,12 +246,6 @@ def insert(
     module = block.module
     cfg = block.ir.cfg
 
-    _add_return_edges_for_patch_calls(
-        cache,
-        module,
-        code.cfg,
-    )
-
     if isinstance(block, gtirb.CodeBlock):
         _update_patch_return_edges_to_match(
             cache, block, code.cfg, code.proxies
@@ -264,6 +258,16 @@ def insert(
             cache, end_block, replacement_length
         )
         remove_block(cache, mid_block)
+
+    # Calls in the patch get their return edges once the block has been
+    # split: if the callee is the function being modified, a return
+    # instruction behind the insertion point now lives in end_block (or is
+    # gone, if it was replaced), and that is where the new edges belong.
+    _add_return_edges_for_patch_calls(
+        cache,
+        module,
+        code.cfg,
+    )
 
     # Stitch in the new blocks to the CFG
     if added_fallthrough:
